@@ -1274,6 +1274,12 @@ class Builder:
                 for mm in re.finditer(r"\.\s*(?:lock|read|write)\s*\(\s*\)(?=\s*\.\s*await)", m[a:b]):
                     edits.append(Edit(a + mm.start(), a + mm.end(), [Seg(".vx_protected", "repo", fn=qual)]))
                     self.count("R38")
+                    # a guard bound to a local (`let [mut] g = X.lock().await;`) is a borrow of the protected value
+                    k = chain_start(m, a, a + mm.start())
+                    lm = re.search(r"(?<![A-Za-z0-9_])let\s+(mut\s+)?([A-Za-z_][A-Za-z0-9_]*)\s*=\s*$", m[a:k])
+                    if lm:
+                        edits.append(Edit(a + lm.start(), k, [Seg("let %s = %s" % (lm.group(2), "&mut " if lm.group(1) else "&"), "repo", fn=qual)]))
+                        self.count("R38")
             if rule[0] == "R37":
                 # `deserialize_with` members of serde_workaround!: the wrapper struct `__DeserializeWith` and its Deserialize impl are
                 # declared *inside* the match arm; Verus has no items in function bodies, so the two items are taken out (the unit
